@@ -17,13 +17,14 @@ RECURSIVE SeqsOfLen(_, _)
 SeqsOfLen(A, n) == IF n = 0 THEN {<<>>} ELSE {Append(s, a) : s \in SeqsOfLen(A, n - 1), a \in A}
 
 \* round trips: plaintext length, secret length, secret/plaintext given as string or bytes
-RtCases == \A n \in {0, 1, 15, 16, 17, 47, 48} : \A sl \in {0, 1, 8, 40} : \A form \in {"ss", "sb", "bs", "bb"} :
+\* (secret lengths around the sizes at which digest + secret + salt cross 64 / 128 bytes)
+RtCases == \A n \in {0, 1, 15, 16, 17, 47, 48} : \A sl \in {0, 1, 8, 39, 40, 41, 48, 55, 56, 57, 63, 64, 65, 104, 105, 200} : \A form \in {"ss", "sb", "bs", "bb"} :
     Emit([fn |-> "roundtrip", s |-> <<>>, a |-> <<n, sl, form>>,
           out |-> [cbc_len |-> 16 + n + 16 - (n % 16), gcm_len |-> 16 + n + 16]])
 \* every single-character corruption class of the encoded message
-TamperCases == \A mode \in {"cbc", "gcm"} : \A n \in {0, 5, 16, 33} :
+TamperCases == \A mode \in {"cbc", "gcm"} : \A n \in {0, 5, 16, 33} : \A sl \in {9, 57, 64} :
     \A part \in {"magic", "salt", "body", "tail"} : \A pos \in {"first", "last"} :
-        Emit([fn |-> "tamper", s |-> <<>>, a |-> <<mode, n, part, pos>>, out |-> <<>>])
+        Emit([fn |-> "tamper", s |-> <<>>, a |-> <<mode, n, part, pos, sl>>, out |-> <<>>])
 OtherKey == \A mode \in {"cbc", "gcm"} : \A what \in {"secret", "aad"} : (mode = "cbc" => what = "secret") =>
     Emit([fn |-> "otherkey", s |-> <<>>, a |-> <<mode, what>>, out |-> <<>>])
 \* truncations and garbage: error, never a panic.  Lengths of the RAW (decoded) message around every boundary
